@@ -1,6 +1,7 @@
 """C07 — instruction read/write annotations match machine semantics (RV32.tla Exec, X64.tla Reads / Writes; idioms M + G + E)."""
 from harness import asmgen
 from harness import armgen
+from harness import x64gen
 from engines.c08 import report, restrict
 
 
@@ -10,6 +11,7 @@ class Engine:
     def run(self, ctx):
         thorough = (ctx.only.get("tier", ctx.tier) if ctx.only else ctx.tier) == "thorough"
         if armgen.c07_part(ctx, thorough): return  # thumb / arm (tla/Thumb.tla, tla/Arm32.tla); True: a replay of one of its cases
+        if x64gen.c07_part(ctx, thorough): return  # x86_64 (tla/X64.tla); True: a replay of one of its cases
         ctx.rule("every instruction class and macro-instruction class of ppci.arch.riscv (isa, rvcisa) x {register "
                  "sweeps (quick: x0 x1 x2 x8 x10 x15 x31), diagonal, in-range boundary immediates / "
                  "displacements from TLC}; ppci supplies the bytes and used_registers / defined_registers / clobbers; "
@@ -45,49 +47,3 @@ class Engine:
                 rec["text"], [bytes(b).hex() for b in rec["seq"]], d)
 
         report(ctx, "C07", verdicts, what)
-        if ctx.only is None:
-            run_x86_64(ctx, thorough)
-
-
-CLAUSES = {"OperandReadsDeclared": ("mr", "operand-read", "reads"), "ImplicitReadsDeclared": ("mri", "implicit-read", "reads"),
-           "OperandWritesDeclared": ("mw", "operand-write", "writes"), "ImplicitWritesDeclared": ("mwi", "implicit-write", "writes")}
-
-
-def run_x86_64(ctx, thorough):
-    """x86_64: the architectural register sets of the emitted bytes (X64.Reads / X64.Writes) are declared."""
-    from harness import x64gen
-    ctx.rule(ctx.cov["rule"] + " || x86_64: the instances of C08 (every class x addressing mode x register sweeps; one in-range "
-             "value per integer operand); ppci supplies the bytes and the names of used_registers / defined_registers / clobbers; "
-             "TLC: ExplReads / ImplReads (X64.Decode(bytes)) within the families of the declared reads, ExplWrites / ImplWrites "
-             "within the declared writes + clobbers (al/ah/ax/eax/rax one family, xmm n single/double one family); distinct = "
-             "distinct (class, mode, tag, printed text)")
-    ctx.assume("x86_64: declared registers are read by their printed name; rsp as used by push / pop / call / ret, rip and the "
-               "flags are fixed implicit state; a partial write (al, ax, movss xmm, xmm) is not a read of the full register")
-    if ctx.only is None:
-        x64gen.laws(ctx, ["tab", "enc", "kat"], thorough)
-    recs, skipped = x64gen.rw_records("C07", ctx.rng, thorough)
-    n = sum(skipped.values())
-    if n:
-        ctx.note("x86_64: %d instance(s) rejected by the constructor / encode(): nothing emitted, not judged" % n)
-    for r in recs:
-        r["key"] = "C07:x86_64:%s:%s:%s:%s" % r["key0"]
-    recs = restrict(ctx, recs)
-    for r in recs:
-        ctx.count(r["key"])
-    for r in recs[:: max(1, len(recs) // 3)][:3]:
-        ctx.sample({k: r[k] for k in ("key", "bytes", "uses", "defs", "clob")})
-    verdicts = x64gen.judge(ctx, recs, ["Decodable"] + list(CLAUSES), "E: C07 x86_64 records")
-    undec = 0
-    for rec, clause, v in verdicts:
-        if clause == "Decodable":
-            undec += 1
-            continue
-        field, kind, verb = CLAUSES[clause]
-        regs = x64gen.fam_names(v.get(field, ()))
-        cname, mode, tag, text = rec["key0"]
-        ctx.violation("C07:x86_64:%s:%s:%s:%s:%s:%s" % (cname, mode, kind, regs, tag, text),
-                      "'%s' (%s) %s %s without declaring it; declared reads %s writes %s clobbers %s [clause %s]" % (
-                          text, bytes(rec["bytes"]).hex(), verb, regs.replace("+", ", "), rec["uses"], rec["defs"], rec["clob"], clause),
-                      {"record": rec, "clause": clause, "verdict": v})
-    if undec:
-        ctx.note("x86_64: %d instance(s) whose bytes are outside the decoder's subset / the register-set model: no verdict" % undec)
